@@ -9,6 +9,11 @@ fn main() {
     "o11_pop" => c_pop(n(2)),
     "o11_remove" => c_remove(n(2), n(3)),
     "o11_insert" => c_insert(n(2), n(3)),
+    "o10_stale_pop" => c_stale_pop(n(2)),
+    "o10_stale_index_set" => c_stale_index_set(n(2), n(3)),
+    "o10_stale_insert" => c_stale_insert(n(2), n(3)),
+    "o10_stale_remove" => c_stale_remove(n(2), n(3)),
+    "o10_stale_push" => c_stale_push_no_growth(n(2)),
     other => { eprintln!("unknown contract {other}"); std::process::exit(2) },
   };
   println!("contract {} on {:?}: {}", a[1], &a[2..], if ok { "HOLDS" } else { "VIOLATED" });
